@@ -47,7 +47,7 @@ def gen_cases(tier, seed):
     rng = rng_for("C09", tier, seed)
     q = tier == "quick"
     yield "vectors", {}
-    for i in range(400 if q else 6000):
+    for i in range(260 if q else 6000):
         depth = rng.choice([0, 1, 1, 2, 2, 3, 3, 4, 5, 8]) if i % 10 else 8
         path = [rng.choice(IDX) if rng.random() < 0.7 else rng.getrandbits(32) for _ in range(depth)]
         if i % 3 == 0:  # make sure non-hardened tails are common
